@@ -339,6 +339,12 @@ def work(ctx, tier):
                     ctx.cnt["http:table"] += 1
                     if rh is not TABLE[found]:
                         viol("http-table-violated", f"HTTP status {found} must map to {TABLE[found].name}; got {rh.name} for {case}", case)
+                else:
+                    # a status the table does not list (302, 418, 600, -1, 10**30): the documented ranges say what IS mapped - nothing outside
+                    # them is; the classifier may answer UNKNOWN or whatever default_classifier makes of the same object
+                    ctx.cnt["http:undocumented-status"] += 1
+                    if rd is not None and rh not in (EC.UNKNOWN, rd):
+                        viol("http-undocumented-status-mapped", f"HTTP status {found} is outside the documented table, yet http_classifier -> {rh.name} (default_classifier -> {rd.name}) for {case}", case)
 
         # ------------------------------------------------------------ sqlstate / pyodbc
         rq = total(sqlstate_classifier, e, case)
@@ -540,6 +546,7 @@ def conclude(ctx):
         "layer:names": (ctx.cnt["layer:names"], 500),
         "metamorphic_renames": (ctx.cnt["metamorphic_renames"], 500),
         "http:table": (ctx.cnt["http:table"], 500),
+        "http:undocumented-status": (ctx.cnt["http:undocumented-status"], 300),
         "http:no-status -> default": (ctx.cnt["http:no-status -> default"], 300),
         "sql:attribute": (ctx.cnt["sql:attribute"], 100),
         "sql:bracket": (ctx.cnt["sql:bracket"], 50),
